@@ -233,7 +233,7 @@ func Body(t *tape.Tape, label string, maxLen int, safe bool) []byte {
 		out = out[:n]
 	case 4: // keyword look-alikes (not at line start if safe)
 		for len(out) < n+1 {
-			w := []string{"endstream", "endobj", "stream", " 1 0 obj", "xendstream", " endstream", "x\nendstream", "\r\nendstream", "\nendobj\n", "data", "\n", "\r"}[st.Intn(12)]
+			w := []string{"endstream", "endobj", "stream", " 1 0 obj", "xendstream", " endstream", "x\nendstream", "\r\nendstream", "\nendobj\n", "data", "\n", "\r", "\n%%EOF\n", "\nstartxref\n12345\n%%EOF\n", "\nxref\n0 1\n", "\ntrailer\n<< /Size 3 >>\n"}[st.Intn(16)]
 			out = append(out, w...)
 		}
 		out = out[:n]
@@ -260,6 +260,10 @@ func Body(t *tape.Tape, label string, maxLen int, safe bool) []byte {
 // a marker: an object header "N G obj" (excluded by digits at line start) or
 // the keywords xref, trailer, startxref, %%EOF.  EOL bytes and line-initial
 // "endstream"/"endobj" stay allowed, as the property's quantifier allows them.
+// safeExcluded lists line-initial keywords that SafeBody removes besides
+// object headers.
+var safeExcluded = []string{}
+
 func SafeBody(b []byte) []byte {
 	out := append([]byte(nil), b...)
 	lineStart := true
@@ -269,7 +273,7 @@ func SafeBody(b []byte) []byte {
 			if c >= '0' && c <= '9' {
 				out[i] = '_'
 			} else {
-				for _, m := range []string{"xref", "trailer", "startxref", "%%EOF"} {
+				for _, m := range safeExcluded {
 					if bytes.HasPrefix(out[i:], []byte(m)) {
 						out[i] = '_'
 					}
